@@ -40,6 +40,22 @@ H4 = {
  "C19-5": "caught at the first attempt",
  "C19-6": "missed (-v never passed, output not scanned); caught after exercising every option and scanning the tool's output for the key",
 }
+H5 = {
+ "C02-7": "first attempt and now: broken proof only (SrcEquivProto: _validate_message no longer the model's) - docs/protocol.md is silent on extra fields inside `message`, so the oracle allows both verdicts and no failing input exists under the property as stated",
+ "C02-8": "caught at the first attempt",
+ "C03-7": "first attempt: broken proof only (SrcEquivBase: _validate_key_id); caught with an input after adding oversized key ids (6..1000 elements) to the hostile corpus",
+ "C03-8": "caught at the first attempt",
+ "C04-7": "caught at the first attempt",
+ "C04-8": "first attempt: broken proof only (SrcEquivBlockM: _do_block_operation); caught with an input after wrong-opcode answers range over every other opcode of the device's own protocols (success markers excepted)",
+ "C11-7": "caught at the first attempt (also a change of the now translated _send_command)",
+ "C11-8": "caught at the first attempt",
+ "C12-7": "broken tie only (T1: TCPServer.run no longer constructs one server); a failing input needs several bind addresses, which the unchanged manager refuses",
+ "C12-8": "first attempt: broken tie only; caught with an input after the monitor demands that a success reply other than `version` be made while the request exchanged something with the device",
+ "C13-7": "caught at the first attempt", "C13-8": "caught at the first attempt",
+ "C15-7": "caught at the first attempt", "C15-8": "caught at the first attempt",
+ "C18-7": "caught at the first attempt",
+ "C18-8": "first attempt: broken proof only (SrcEquivSgxM: the translated SGX echo is no longer the model's); caught with an input after adding the finer ways an echo can be wrong (right payload under a wrong class / command byte, a byte short, a byte long)",
+}
 res = {}
 for line in open(sys.argv[1]):
     m = re.match(r"(\S+)\s+(caught \(failing input\)|caught \(tie only\)|MISSED)(.*)", line)
@@ -59,11 +75,14 @@ for i in sorted(os.listdir(os.path.join(HERE, "seeded"))):
     m["result"] = {"caught (failing input)": "reported by the quick check (exit 1, VIOLATION line) with a failing input",
                    "caught (tie only)": "reported by the quick check (exit 1, VIOLATION ... no-failing-input-found): broken tie only",
                    "MISSED": "NOT reported"}[st]
-    if m.get("round") == 4 or m.get("caught_by") in (None, "pending"):
+    if m.get("round") in (4, 5) or m.get("caught_by") in (None, "pending", ""):
         m["caught_by"] = ("oracle %s" % key) if st.startswith("caught (failing") else ("tie: %s" % key)
         pref = "-".join(i.split("-")[:2])
         if pref in H4:
             m["history"] = H4[pref]
+        if pref in H5:
+            m["history"] = H5[pref]
+            m["checks_run"] = "tools/par_seeds.py (scratch copy of /verif + detached worktree of /repo: git apply; checks/check.py <property> --tier quick; git checkout -- .)"
     json.dump(m, open(p, "w"), indent=1)
     n += 1
 print("updated", n)
